@@ -332,6 +332,30 @@ def check_C17(chk):
                         chk.violation("reported-%s-%s-%s" % (k, ra, rb), "reported %s differs: %s shows %s, %s shows %s" % (
                             {"p": "passes", "f": "failures", "s": "skips", "e": "exceptions", "exc_tests": "tests with exceptions",
                              "fail_tests": "tests with failures"}[k], ra, ca[k], rb, cb[k]), rp)
+    # one reporter object serving two consecutive runs (what cgreen-runner does for several libraries)
+    T = L.Test
+    trees = [L.Suite(0, children=[T(0, body=[("c", 1)]), T(1, body=[("c", 0), ("c", 1)])]),
+             L.Suite(0, children=[L.Suite(1, children=[T(0, body=[("c", 1)])]), T(1, body=[("die", "sig", 11)])]),
+             L.Suite(0, children=[T(0, body=[("c", 1)]), T(1, body=[("c", 1)])])]
+    for root in trees:
+        obs = {}
+        for rep in L.REPORTERS:
+            run = L.run_impl(drv, root, rep, "twice")
+            m = vlib.run_model("runner", ["(twice %s forked 4096 %s)" % (rep, L.node_sexp(root))])[0].split()
+            chk.case(("twice", L.node_sexp(root), rep))
+            chk.count("mode:twice")
+            chk.cov["disagreements_checked"] += 1
+            verdicts = [a[0] for pid, k, a in run.log if k == "verdict"]
+            tops = [row[3] for row in L.log_sdone(run) if row[2] == 0]
+            obs[rep] = (verdicts, tops[-1] if tops else None)
+            rp = replay_of(root, rep, "forked", {"scenario": L.scn_text(root, rep, "twice", "events.log"), "stdout": run.stdout[-1200:]})
+            if len(m) == 6 and (verdicts != m[:2] or (tops and tuple(map(int, m[2:6])) != tops[-1])):
+                chk.disagreement("two runs with one %s reporter: verdicts %s totals %s, model %s" % (rep, verdicts, tops[-1] if tops else None, m), rp)
+        for ra, rb in itertools.combinations(L.REPORTERS, 2):
+            if obs[ra] != obs[rb]:
+                chk.violation("two-runs-%s-%s" % (ra, rb), "two consecutive runs with one reporter object: %s gives verdicts %s and totals %s, %s gives %s and %s" % (
+                    ra, obs[ra][0], obs[ra][1], rb, obs[rb][0], obs[rb][1]),
+                    replay_of(root, ra, "forked", {"scenario": L.scn_text(root, ra, "twice", "events.log"), "other_reporter": rb}))
     return chk.finish()
 
 
